@@ -4,7 +4,7 @@
 From Coq Require Import QArith Qcanon ZArith List Arith Bool Field Lia.
 From Verif.lib Require Import Bsp.
 From Verif.C02 Require Import Proofs Proofs_ref.
-From Verif.C07 Require Import Model Proofs Discharge Ends Hess More Algebra Disk Chain Props.
+From Verif.C07 Require Import Model Proofs Discharge Ends Hess More Algebra Disk Chain NurbsOps ArcModel Props.
 Import ListNotations.
 Open Scope Qc_scope.
 
@@ -194,3 +194,54 @@ Proof.
   apply (proj1 (basis_interpolatory_at_ends (fst ex_kv2) 2 j (proj1 (proj1 ex_open_ends)) ltac:(unfold numdofs; simpl; lia))).
   exact (proj2 (proj1 ex_open_ends)).
 Qed.
+
+(* ---- NURBS branches of the operations: a NURBS function whose weights are non-zero for EVERY index
+   (constant weight 2, numerator of ex_f), the hypotheses of nurbs_apply_matrix_spec / nurbs_outer_*_spec *)
+Definition ex_nw : bsp :=
+  mk_bsp (kvs ex_f) (fun idx c => if Nat.eqb c 2 then qq 2 1 else co ex_f idx c) 3.
+Example ex_nw_weights : (forall idx, co ex_nw idx (wcomp ex_nw) <> 0)
+                        /\ g_val ex_nw (rev ex_xs) (wcomp ex_nw) <> 0 /\ wcomp ex_nw = 2%nat.
+Proof.
+  split; [|split; [|reflexivity]].
+  - intros idx E. apply Qc_eq_Qeq in E. vm_compute in E. discriminate E.
+  - intro E. apply Qc_eq_Qeq in E. vm_compute in E. discriminate E.
+Qed.
+Example ex_nurbs_rotate :
+  n_val (n_rotate ex_nw cc ss) (rev ex_xs) 0 = cc * n_val ex_nw (rev ex_xs) 0 - ss * n_val ex_nw (rev ex_xs) 1.
+Proof.
+  exact (proj1 (nurbs_rotate_spec ex_nw cc ss (rev ex_xs) (proj2 (proj2 ex_nw_weights))
+                 (proj1 ex_nw_weights) (proj1 (proj2 ex_nw_weights)))).
+Qed.
+Example ex_nurbs_outer_sum :
+  n_val (n_outer_sum ex_nw ex_nw) (rev ex_xs ++ rev ex_xs) 1 = n_val ex_nw (rev ex_xs) 1 + n_val ex_nw (rev ex_xs) 1.
+Proof.
+  exact (nurbs_outer_sum_spec ex_nw ex_nw (rev ex_xs) (rev ex_xs) eq_refl (proj1 ex_nw_weights) (proj1 ex_nw_weights)
+           (proj1 (proj2 ex_nw_weights)) (proj1 (proj2 ex_nw_weights)) 1%nat ltac:(vm_compute; repeat constructor)).
+Qed.
+Example ex_rotate_isometry :
+  g_val (b_rotate ex_f cc ss) (rev ex_xs) 0 * g_val (b_rotate ex_f cc ss) (rev ex_xs) 0
+  + g_val (b_rotate ex_f cc ss) (rev ex_xs) 1 * g_val (b_rotate ex_f cc ss) (rev ex_xs) 1
+  = g_val ex_f (rev ex_xs) 0 * g_val ex_f (rev ex_xs) 0 + g_val ex_f (rev ex_xs) 1 * g_val ex_f (rev ex_xs) 1.
+Proof. exact (rotate_isometry ex_f cc ss (rev ex_xs) eq_refl ex_unit). Qed.
+
+(* ---- the arc constructors on the model with the rational angle (4/5, 3/5): hypotheses met, the weight is non-zero
+   and the quotient lies on the circle (observed by computation at a point of every span) *)
+Example ex_arc_models : forall t, 0 <= t -> t <= 1 ->
+  (let X := g_val (arc5_fn cc ss (qq 3 1)) [t] 0 in let Y := g_val (arc5_fn cc ss (qq 3 1)) [t] 1 in
+   let W := g_val (arc5_fn cc ss (qq 3 1)) [t] 2 in X * X + Y * Y = (qq 3 1 * W) * (qq 3 1 * W))
+  /\ (let X := g_val (arc7_fn cc ss (qq 3 1)) [t] 0 in let Y := g_val (arc7_fn cc ss (qq 3 1)) [t] 1 in
+      let W := g_val (arc7_fn cc ss (qq 3 1)) [t] 2 in X * X + Y * Y = (qq 3 1 * W) * (qq 3 1 * W)).
+Proof.
+  intros t H0 H1. split.
+  - exact (arc5_model_on_circle cc ss (qq 3 1) t ex_unit H0 H1).
+  - exact (arc7_model_on_circle cc ss (qq 3 1) t ex_unit H0 H1).
+Qed.
+Example ex_arc_models_observed :
+  forallb (fun t => qeqb (n_val (arc7_fn cc ss (qq 3 1)) [t] 0 * n_val (arc7_fn cc ss (qq 3 1)) [t] 0
+                          + n_val (arc7_fn cc ss (qq 3 1)) [t] 1 * n_val (arc7_fn cc ss (qq 3 1)) [t] 1) (qq 9 1)
+                    && qeqb (n_val (arc5_fn cc ss (qq 3 1)) [t] 0 * n_val (arc5_fn cc ss (qq 3 1)) [t] 0
+                             + n_val (arc5_fn cc ss (qq 3 1)) [t] 1 * n_val (arc5_fn cc ss (qq 3 1)) [t] 1) (qq 9 1)
+                    && qeqb (n_val (arc3_fn cc ss (qq 3 1)) [t] 0 * n_val (arc3_fn cc ss (qq 3 1)) [t] 0
+                             + n_val (arc3_fn cc ss (qq 3 1)) [t] 1 * n_val (arc3_fn cc ss (qq 3 1)) [t] 1) (qq 9 1))
+          [0; qq 1 7; qq 1 3; qq 1 2; qq 3 5; qq 2 3; qq 9 10; 1] = true.
+Proof. vm_compute. reflexivity. Qed.
